@@ -204,11 +204,13 @@ def _tuples(X, t, n=24, seed=1):
   return X[idx]
 
 
-def config_case(name, conf, scale):
+def config_case(name, conf, scale, relabel=None):
   def fn(ctx):
     import metric_learn
     cls = getattr(metric_learn, name)
     X, y = _data(scale)
+    if relabel is not None:
+      y = np.asarray(relabel)[y]          # the same classes under other integer names (not starting at 0, not consecutive)
     d = X.shape[1]
     kw = dict(conf)
     nc = kw.get('n_components')
@@ -313,6 +315,15 @@ def cases(tier, seed):
                       ['%s.fit (concrete run)' % nm],
                       '%s(%s) on one fixed well-formed data set (36 points, 3 features, 3 classes) at scale %g -- sampled, not solver-decided' % (nm, conf, scale),
                       tiers=Q if quick else T, concrete_only=True, validate=1, cost=2))
+  seen = set()
+  for nm, conf in confs:
+    if nm in seen or nm in ('Covariance', 'RCA', 'MLKR', 'ITML', 'MMC', 'SDML', 'SCML', 'LSML'):
+      continue
+    seen.add(nm)
+    for relabel in ((3, 5, 10), (7, 2, 4)):
+      out.append(case('config_%s_labels_%s' % (nm, '-'.join(map(str, relabel))), config_case(nm, conf, 1.0, relabel), ['%s.fit (concrete run)' % nm],
+                      '%s(%s) on the fixed data set with the three classes named %s -- sampled, not solver-decided' % (nm, conf, list(relabel)),
+                      concrete_only=True, validate=1, cost=2))
   return out
 
 
